@@ -4,6 +4,8 @@
 package vsym
 
 import (
+	"bytes"
+	"encoding/gob"
 	"encoding/json"
 	"fmt"
 	"os"
@@ -12,6 +14,7 @@ import (
 	"strings"
 	"sync"
 	"testing"
+	"time"
 )
 
 type Assignment struct {
@@ -185,13 +188,13 @@ func TempDir(name string) string {
 	return d
 }
 
-func ForbidCrash()          {}
-func SetGOMAXPROCS(n int)   { runtime.GOMAXPROCS(n) }
-func Symbolic() bool        { return false }
-func Explore(bound int)     {}
-func Sequential()           {}
-func SelectFork(on bool)    {}
-func SetFaults(budget int)  {}
+func ForbidCrash()         {}
+func SetGOMAXPROCS(n int)  { runtime.GOMAXPROCS(n) }
+func Symbolic() bool       { return false }
+func Explore(bound int)    {}
+func Sequential()          {}
+func SelectFork(on bool)   {}
+func SetFaults(budget int) {}
 
 func Try(f func()) (panicked bool, msg string) {
 	defer func() {
@@ -287,3 +290,38 @@ func IntRange(name string, lo, hi int) int {
 	}
 	return v
 }
+
+// LegacyRecord natively produces real gob bytes for the values of the assignment.
+func LegacyRecord(tag string, nfields int) ([]byte, []int64) {
+	vals := make([]int64, nfields)
+	for k := range vals {
+		vals[k] = int64(bits(fmt.Sprintf("legacy%s_%d", tag, k)))
+	}
+	var buf bytes.Buffer
+	enc := gob.NewEncoder(&buf)
+	var err error
+	switch nfields {
+	case 1:
+		err = enc.Encode(struct{ Slot int64 }{vals[0]})
+	case 2:
+		err = enc.Encode(struct{ SourceEpoch, TargetEpoch int64 }{vals[0], vals[1]})
+	default:
+		panic("LegacyRecord: unsupported field count")
+	}
+	if err != nil {
+		panic(err)
+	}
+	return buf.Bytes(), vals
+}
+
+func DecimalInt64(name string) string { return strconv.FormatInt(int64(bits(name)), 10) }
+
+func ParseDecimal(s string) int64 {
+	n, err := strconv.ParseInt(s, 10, 64)
+	if err != nil {
+		panic(assumeFailed{})
+	}
+	return n
+}
+
+func Settle() { time.Sleep(400 * time.Millisecond) }
